@@ -22,3 +22,4 @@ def rules(ctx):
     S.c01_r1_commit_protocol(ctx)
     S.c01_r2_grow(ctx)
     S.c01_r4_non_durable(ctx)
+    S.refcount_rules(ctx)
